@@ -39,7 +39,7 @@ Watchdog::Watchdog(long csecs,
     handler(*new
             Implementation::Watchdog::Handler_Flag<Flag_Base, Flag>(holder,
                                                                     flag)) {
-  if (csecs == 0) {
+  if (csecs <= 0) {
     throw std::invalid_argument("Watchdog constructor called with a"
                                 " non-positive number of centiseconds");
   }
@@ -52,7 +52,7 @@ inline
 Watchdog::Watchdog(long csecs, void (* const function)())
   : expired(false),
     handler(*new Implementation::Watchdog::Handler_Function(function)) {
-  if (csecs == 0) {
+  if (csecs <= 0) {
     throw std::invalid_argument("Watchdog constructor called with a"
                                 " non-positive number of centiseconds");
   }
